@@ -20,5 +20,6 @@ def check(ctx):
     indexing.data_index_state(ctx, 'C08-R5')
     indexing.name_keyed_operations(ctx, 'C08-R5')
     exceptions.locals_bound_before_use(ctx, 'C08-R6')
+    exceptions.patterns_are_literals(ctx, 'C08-R7')
     ctx.undecided += ['termination and totality of the third-party numerics for every accepted input',
                       'whether an assert can fire is a run-time question (asserts are listed as information)']
